@@ -335,3 +335,25 @@ func renderWS(v *JV) []byte {
 	}
 	return r(nil, v)
 }
+
+// dedupLast returns v with repeated member names collapsed to the LAST occurrence's value at the FIRST occurrence's
+// position (how every JSON decoder into a map reads such a text); nested objects likewise.
+func dedupLast(v *JV) *JV {
+	c := &JV{K: v.K, Lit: v.Lit, Sp: v.Sp}
+	if v.K == JObj {
+		for i, k := range v.Keys {
+			j := c.find(k)
+			if j >= 0 {
+				c.Kids[j] = dedupLast(v.Kids[i])
+				continue
+			}
+			c.Keys = append(c.Keys, k)
+			c.Kids = append(c.Kids, dedupLast(v.Kids[i]))
+		}
+		return c
+	}
+	for _, k := range v.Kids {
+		c.Kids = append(c.Kids, dedupLast(k))
+	}
+	return c
+}
